@@ -35,8 +35,8 @@ def run(chk):
         'are folded again, so the partition refines itself to the constants the code distinguishes (whatever its shape: loop over the '
         'table, bisect, chained ifs); an operation that needs the exact value is an analysis error.  On each of the resulting intervals '
         '(50 on this tree, covering all integers) the result is one integer and equals the official WBF scale (constant in this checker) '
-        'at both ends.  score_to_imp is decided the same way for every integer score against a grid of 22 scores in both positions.  '
-        'Before that a dense concrete fold (-4300..4300 and huge values; 22x22 score pairs) looks for counterexamples.  Range, '
+        'at both ends.  score_to_imp is decided the same way for every integer score against a grid of 32 scores (on and off the 10-point grid) in both positions.  '
+        'Before that a dense concrete fold (-4300..4300 and huge values; 32x32 score pairs) looks for counterexamples.  Range, '
         'monotonicity and oddness follow from equality with the scale on every interval.')
     chk.trusted.append('official IMP scale written in sa/rules/c16.py')
     f = Folder(repo, allow_loops=True, max_steps=5_000_000)
@@ -72,7 +72,9 @@ def run(chk):
                  f'a difference of {bad0[0]} points gives {bad0[1]}; the official scale gives {bad0[2]} IMPs')
     elif unsupported is None:
         chk.ok('C16.R3', w, f'all {n0} integer differences folded concretely (in [-4300, 4300] and 18 huge ones) give the official IMP value')
-    grid = [-7600, -4000, -2220, -1100, -620, -100, -50, -10, 0, 10, 20, 40, 50, 90, 100, 420, 620, 1430, 2000, 3990, 4000, 7600]
+    # (scores are multiples of 10, but the conversion is stated for every difference: the grid also holds values off the 10-point grid, so that
+    # arithmetic done on the two scores separately - rounding, truncation to tens - shows against the conversion of the SUM)
+    grid = [-7600, -7581, -4000, -2220, -1100, -620, -100, -50, -15, -10, -9, -1, 0, 1, 5, 9, 10, 15, 19, 20, 21, 40, 50, 90, 100, 420, 620, 1430, 2000, 3990, 4000, 7600]
     bad1 = None
     if unsupported is None:
         for a in grid:
@@ -104,8 +106,9 @@ def run(chk):
         if isinstance(val, (ast.Tuple, ast.List)) and all(isinstance(e, ast.Constant) and isinstance(e.value, int) for e in val.elts):
             tables[name] = tuple(e.value for e in val.elts)
     used = sorted({n.id for n in ast.walk(fn) if isinstance(n, ast.Name) and n.id in tables})
-    if not counterexample:
-        chk.floor('C16.R1', 'scale table used by point_difference_to_imps', len(used), 1)
+    if not counterexample and not used:
+        # no literal table is read by the function (generated / encoded scale): R1 has nothing to compare; the scale is decided by R0 / R2
+        chk.note('C16.R1: no literal threshold table is read by point_difference_to_imps; the scale is decided by the folds (R0, R2) alone')
     for name in used:
         t = tables[name]
         cw = repo.where(m, m.constants[name])
